@@ -395,7 +395,12 @@ def num_consts(repo):
     ds = re.findall(r"self\s*\.\s*dist_scale\s*=\s*([\d_]+)\s*;", src)
     if len(ds) != 1:
         raise Unrec("LefImporter: expected exactly one assignment to dist_scale, found %d" % len(ds))
-    return legal, scales, num(ds[0])
+    body = find_block(src, r"fn\s+import_layer\s*\(")
+    if body is None:
+        raise Unrec("LefImporter::import_layer not found")
+    calls = re.findall(r"layers\s*\.\s*(keyname|nextnum|add|keynum|get_or_insert)\s*\(|(Layer::new|Layer::from_num)\s*\(", body)
+    shape = [a or b for a, b in calls]
+    return legal, scales, num(ds[0]), shape
 
 C20_FILES = ["layout21raw/src/gds.rs", "layout21raw/src/proto.rs", "layout21raw/src/lef.rs",
              "layout21raw/src/data.rs", "layout21tetris/src/conv/raw.rs"]
@@ -490,14 +495,16 @@ def main():
     except Exception as e:
         report["fallback"].append("hash sites: translator error: %r" % (e,))
     try:
-        legal, scales, dist = num_consts(repo)
+        legal, scales, dist, shape = num_consts(repo)
         text = ("-- GENERATED by /verif/tools/translate.py: numeric tables of the LEF paths — do not edit.\n"
                 "namespace L21.Gen\n\n/-- `LefDbuPerMicron::try_new`: the legal DATABASE MICRONS values -/\n"
                 "def legalDbuSrc : List Int := [" + ", ".join(str(x) for x in legal) + "]\n\n"
                 "/-- `LefExporter::export_units`: raw units -> LEF database units per micron -/\n"
                 "def lefExportScaleSrc : List (String × Int) := [" + ", ".join('("%s", %d)' % x for x in scales) + "]\n\n"
                 "/-- `LefImporter`: raw units per micron (`dist_scale`) -/\n"
-                "def lefImportDistScaleSrc : Int := %d\n\nend L21.Gen\n" % dist)
+                "def lefImportDistScaleSrc : Int := %d\n\n" % dist +
+                "/-- `LefImporter::import_layer`: the layer-table calls it makes, in source order -/\n"
+                "def lefImportLayerCalls : List String := [" + ", ".join('"%s"' % x for x in shape) + "]\n\nend L21.Gen\n")
         path = os.path.join(outdir, "NumConsts.lean")
         old = open(path).read() if os.path.exists(path) else None
         if old != text:
